@@ -73,7 +73,7 @@ KANI_ASSUMPTIONS = [
 PROPS = {
     'C03': dict(
         title='Typed opcodes only ever receive operands of the kind they require',
-        verus=['core'], kani=[],
+        verus=['core'],
         level='proof',
         technique='Verus contracts on extracted real functions: per-arm can_emit guard soundness and per-arm process_stack_ops effect against a reference pickle machine',
         claim='Unbounded proof (all stacks, all depths) that each can_emit arm implies the reference kind precondition and that '
@@ -119,7 +119,7 @@ PROPS = {
         assumptions=['PRNG variant: n, a, b range over the grid {0,1,2,3,95,255,256,257,65535,65536,65537,2^32,MAX-1,MAX}, not all of usize']),
     'C17': dict(
         title='The simulated stack and memo mirror the reference machine after every opcode',
-        verus=['core'], kani=[],
+        verus=['core'],
         level='proof',
         technique='Verus contracts: process_stack_ops arm-by-arm simulation relation against a reference pickle machine (inductive step of the invariant)',
         claim='Unbounded proof of the inductive step: from any simulated state related to a reference state, every process_stack_ops arm '
@@ -131,17 +131,70 @@ PROPS = {
         ]),
 }
 
+_CORE_ASSUME = [
+    'emit_int / emit_string / emit_bytes / emit_global / mutate_* / post_process_emission / get_random_module are external_body in the Verus unit with '
+    'the contract stated there (abstract effect only); post_process_emission is the identity in safe mode (Kani harnesses u8_typeconfusion_*, u8_not_applicable_*)',
+    'byte <-> trace link: each appended chunk starts with the opcode byte recorded in the trace (proved for the arms verified in Verus); that the whole '
+    'chunk decodes to exactly that opcode and that concatenated chunks decode to the concatenated trace is not machine-checked here',
+    'registered mutators are the seven built-in kinds, created with unsafe_mode equal to the generator flag (as the CLI and Python bindings do)',
+    'min_opcodes and max_opcodes are below 2^32 (precondition of generate_internal; LONG_BINPUT index cast)',
+    'entropy adapter contracts used by the Verus unit (choose_index / gen_range in range) are the ones proved by the Kani harnesses u9_*',
+    'PICKLE_OPCODES table content (vf_pickle_opcodes) is assumed in the Verus unit: every entry of the protocol-v table was introduced in protocol <= v, NONE is in every table',
+]
+_NOTE = 'Trusted: Verus/z3; the opaque cell model (variant tag immutable; lint-checked every run); assumed std specs and payload shims listed in evidence.trusted_base; extraction rules R1-R16; emit_int/emit_string/emit_bytes/emit_global and the mutate_* helpers are assumed to have the abstract effect stated in emit_post (exactly one opcode of the chosen family appended, process_stack_ops called with it); the byte <-> trace link (each appended chunk decodes to the recorded opcode; concatenation of self-delimiting chunks decodes to the concatenated trace) is outside this unit; mutators are created with unsafe_mode equal to the generator flag; opcode counts < 2^32.'
+
+PROPS.update({
+    'C01': dict(
+        title='Safe-mode pickles obey the reference stack discipline', verus=['core'], level='proof',
+        technique='Verus contracts on extracted real functions: can_emit guard soundness, process_stack_ops simulation relation, cleanup_for_stop, generate_internal loop invariant (trace accepted by a reference pickle machine)',
+        claim='Unbounded proof (every protocol, entropy stream, opcode range, flag combination, stack depth) that the opcode trace emitted by generate_internal without unsafe '
+              'mutations satisfies the reference stack preconditions at every step and that STOP finds exactly one non-MARK object.',
+        note=_NOTE, assumptions=_CORE_ASSUME),
+    'C02': dict(
+        title='Memo discipline', verus=['core'], level='proof',
+        technique='Verus contracts: memo emitter arms (PUT index == memo size and fresh, GET index in key set for any mutated index), guards, process_stack_ops memo arms, contiguity invariant',
+        claim='Unbounded proof (any memo size, any mutator outcome for the index) that GET-family indices are defined, PUT-family indices are fresh, and no PUT executes on MARK/empty stack.',
+        note=_NOTE, assumptions=_CORE_ASSUME),
+    'C05': dict(
+        title='Only opcodes of the requested protocol, right header', verus=['core'], level='proof',
+        technique='Verus contracts: candidate set within the protocol table, emitted opcode in the chosen family and protocol, collapse-phase opcodes in protocol, PROTO header clause of generate_internal',
+        claim='Proof that every opcode recorded in the trace (body and collapse tail) was introduced in protocol <= P, PROTO P is the first two bytes iff P >= 2.',
+        note=_NOTE + ' Table content is assumed in Verus (Kani table harness pending); the protocol-0 7-bit-ASCII clause for payload bytes is not covered yet.',
+        assumptions=_CORE_ASSUME),
+    'C06': dict(
+        title='FRAME unique, leads the body, spans exactly the rest', verus=['core'], kani_thorough=U8_THOROUGH, level='proof',
+        technique='Verus contract on generate_internal (FRAME back-patch arithmetic and position), can_emit(Frame)=false, unreachable Frame emitter arm; Kani frame clause of the type-confusion rewrite',
+        claim='Safe mode: proof that FRAME occurs only for P >= 4, at byte offset 2, with length == total length - 11, and that no body/tail opcode is FRAME. '
+              'Unsafe mode: the rewrite never touches bytes before the current emission (Kani, bounded) and the length is patched after all rewrites.',
+        note=_NOTE + ' The unsafe-mode half rests on the Kani frame clause plus inspection of generate_internal (its Verus contract requires safe mode).',
+        assumptions=_CORE_ASSUME),
+    'C08': dict(
+        title='Generator reuse: each call independent of earlier calls', verus=['core'], level='proof',
+        technique='Verus contracts: reset() postcondition and a generate_internal postcondition that mentions the old state only through its configuration',
+        claim='Proof that the returned bytes are header + body + tail + STOP built from a freshly reset state: nothing of the previous output, stack, memo or PROTO flag survives into the result.',
+        note=_NOTE + ' Equality of two runs additionally needs determinism of the callees (C07). generate()/generate_from_arbitrary() wrappers by inspection.',
+        assumptions=_CORE_ASSUME),
+    'C09': dict(
+        title='Generation is total', verus=['core'], kani_quick=U8_QUICK + U9_QUICK, level='proof',
+        technique='Verus exec-safety obligations (overflow, index bounds, unwrap) and decreases clauses on every loop of the functions under contract, generate_internal returns Ok; Kani panic/overflow checks on mutators and entropy adapters',
+        claim='Proof of panic-freedom, termination and Ok result for the functions under contract, for all inputs.',
+        note=_NOTE + ' Not covered: RefCell borrow-flag panics, allocation failure, native stack depth of recursive Drop, string mutators, text emitters (format!).',
+        assumptions=_CORE_ASSUME + ['RefCell borrow flags, allocation failure and native stack overflow of recursive drop are not modelled']),
+    'C10': dict(
+        title='EXT and buffer opcodes only when enabled', verus=['core'], kani_thorough=U8_THOROUGH, level='proof',
+        technique='Verus contracts: can_emit flag clauses, emitted opcode in the chosen family (flags_ok), collapse-phase opcode set, generate_internal trace clause; Kani: type-confusion replacement is never EXT/buffer',
+        claim='Proof that no opcode recorded in the trace is EXT*/NEXT_BUFFER/READONLY_BUFFER unless the corresponding flag is set.',
+        note=_NOTE, assumptions=_CORE_ASSUME),
+    'C11': dict(
+        title='Opcode-count knobs bound the program size', verus=['core'], level='proof',
+        technique='Verus contract on generate_internal: loop runs exactly T times, one opcode per iteration, tail <= 2T+1',
+        claim='Proof that the body has exactly T opcodes with min <= T < max (T = min when max <= min) and the collapse tail has at most 2T+1 opcodes.',
+        note=_NOTE, assumptions=_CORE_ASSUME),
+})
+
 NOT_APPLICABLE = {
-    'C01': 'check under construction in this session (chain U2-U5); will be claimed once the driver unit lands',
-    'C02': 'check under construction in this session',
     'C04': 'check under construction in this session',
-    'C05': 'check under construction in this session',
-    'C06': 'check under construction in this session',
     'C07': 'check under construction in this session',
-    'C08': 'check under construction in this session',
-    'C09': 'check under construction in this session',
-    'C10': 'check under construction in this session',
-    'C11': 'check under construction in this session',
     'C12': 'check under construction in this session',
     'C13': 'front ends (main.rs clap/rayon/filesystem, bash wrapper, PyO3/Python) have no function boundary a contract can be put on and no deductive verifier here accepts them (DESIGN.md section 7)',
     'C14': 'heap reachability through Rc<RefCell<..>> cycles: no contract within reach of Verus (cell model has no heap) or Kani (recursive drop glue does not terminate in CBMC) can express or decide it (DESIGN.md section 7)',
